@@ -194,8 +194,14 @@ Proof.
   - rewrite Ht. reflexivity.
 Qed.
 
+(** what NewRawSuite / NewSuite return as the interface value: a RawSuite (zero on error) / nil on error *)
+Definition lift_suite (o : outcome suite_cfg) : res (option suite_cfg * option err) :=
+  match o with Ok c => Val (Some c, None) | Err e => Val (Some zero_cfg, Some e) | Panic => Pnc end.
+Definition lift_suite_nil (o : outcome suite_cfg) : res (option suite_cfg * option err) :=
+  match o with Ok c => Val (Some c, None) | Err e => Val (None, Some e) | Panic => Pnc end.
+
 Lemma src_NewRawSuite_eq fuel raw : small raw ->
-  Src.NewRawSuite fuel raw = lift_cfg (Suite.new_raw_suite raw).
+  Src.NewRawSuite fuel raw = lift_suite (Suite.new_raw_suite raw).
 Proof.
   intros Hs. unfold Src.NewRawSuite, Suite.new_raw_suite, Src.lookup_go.
   destruct (lookup raw known_suites) as [c|].
@@ -204,7 +210,7 @@ Proof.
     destruct (Suite.parse_raw_suite raw) as [c|e|]; reflexivity.
 Qed.
 
-Lemma src_NewSuite_eq cfg : Src.NewSuite cfg = lift_cfg (Suite.new_suite cfg).
+Lemma src_NewSuite_eq cfg : Src.NewSuite cfg = lift_suite_nil (Suite.new_suite cfg).
 Proof.
   unfold Src.NewSuite, Suite.new_suite. rewrite src_SuiteConfig_Validate_eq. cbn [rbind].
   destruct (suite_validate cfg); reflexivity.
@@ -218,8 +224,10 @@ Proof. unfold Src.SuiteConfigFromRaws, Suite.suite_config_from_raws, Src.lookup_
 
 Lemma lift_cfg_ok o c : lift_cfg o = Val (c, None) <-> o = Ok c.
 Proof. destruct o as [c'|e|]; cbn [lift_cfg]; split; intros H; try discriminate; inversion H; reflexivity. Qed.
+Lemma lift_suite_ok o c : lift_suite o = Val (Some c, None) <-> o = Ok c.
+Proof. destruct o as [c'|e|]; cbn [lift_suite]; split; intros H; try discriminate; inversion H; reflexivity. Qed.
 
 
-Lemma lift_cfg_returns o : o <> Panic -> returns (lift_cfg o).
-Proof. intros H. destruct o as [a|e|]; [eexists; reflexivity|eexists; reflexivity|congruence]. Qed.
+Lemma lift_cfg_returns o : o <> Panic -> returns (lift_cfg o) /\ returns (lift_suite o) /\ returns (lift_suite_nil o).
+Proof. intros H. destruct o as [a|e|]; [repeat split; eexists; reflexivity|repeat split; eexists; reflexivity|congruence]. Qed.
 
